@@ -132,21 +132,36 @@ def gen_cases(tier, rnd, prop, budget):
     def game(n, i):
         if sam or (prop in ("C07", "C08") and i % 3 == 2):
             return G.sam_game(n, rnd), "sam"
+        if prop in ("C03", "C08") and i % 4 == 3:
+            # games of ANY class: the computers are defined on every table with minimal information
+            return (G.arbitrary_game(n, rnd), "arb") if i % 8 == 3 else (G.undervalued_game(n, rnd), "undervalued")
         kind = ["int", "dyadic", "int", "big"][i % 4]
         return G.sa_game(n, rnd, kind=kind, neg_singletons=(i % 3 == 1),
                          v0=Fraction(-(i % 2) * rnd.randint(0, 3))), f"sa-{kind}"
     # n = 3: all K
-    for i in range(6 if tier == "quick" else 12):
+    for i in range(8 if tier == "quick" else 16):
         v, tag = game(3, i)
         for K in G.knowledge_sets_all(3):
             yield 3, v, K, tag + ":allK"
     # n = 4: all 1024 K
-    for i in range(2 if tier == "quick" else 10):
+    for i in ((0, 3) if tier == "quick" and prop in ("C03", "C08") else range(2 if tier == "quick" else 10)):
         v, tag = game(4, i)
         for K in G.knowledge_sets_all(4):
             if not budget.ok():
                 return
             yield 4, v, K, tag + ":allK"
+    # level-set knowledge: minimal information plus ALL coalitions of some sizes (n = 5, 6): structured knowledge that
+    # Bernoulli sampling practically never produces (e.g. every triple known, every pair and quadruple unknown)
+    for n in (5, 6):
+        sizes = list(range(2, n))
+        for i in range(4 if tier == "quick" else 12):
+            v, tag = game(n, i if prop not in ("C03", "C08") else (3 if i % 2 else 7) + 8 * i)
+            for r in range(1, len(sizes) + 1):
+                for comb in itertools.combinations(sizes, r):
+                    if n == 6 and tier == "quick" and len(comb) > 1:
+                        continue
+                    K = sorted(set(G.minimal_ids(n)) | {c for c in range(2 ** n) if G.popcount(c) in comb})
+                    yield n, v, K, tag + ":levelK"
     for n, cnt in ((5, 300 if tier == "quick" else 5000), (6, 40 if tier == "quick" else 500),
                    (7, 0 if tier == "quick" else 50), (2, 4)):
         for i in range(cnt):
